@@ -280,23 +280,45 @@ def shrink_expr(e):
 # the real matcher objects, through the public constructor functions only
 # ------------------------------------------------------------------------------------------------
 
-def to_matcher(e, top=True):
+class Env:
+    """the world a constructor call is evaluated in (stream C17.seq): `store[l]` are the LIVE mutable containers the test keeps a
+    handle on (["ref", l] in value position passes that very object), `objs[i]` the matcher objects built so far (["obj", i] in
+    matcher position passes that very object)"""
+
+    def __init__(self, store, objs=None):
+        self.store, self.objs = store, ([] if objs is None else objs)
+
+
+def is_ref(v):
+    return isinstance(v, list) and len(v) == 2 and v[0] == "ref" and isinstance(v[1], int)
+
+
+def to_matcher(e, top=True, env=None):
     """Expr -> object built by lemoncheesecake.matching's public functions.  A `val` in argument position is passed
-    as the plain value (the API applies is_()); at the top it is `is_(value)`."""
+    as the plain value (the API applies is_()); at the top it is `is_(value)`.  With an `env`, ["ref", l] / ["obj", i] pass the
+    live container / the existing matcher object themselves."""
     import lemoncheesecake.matching as M
 
+    def val(v):
+        return env.store[v[1]] if env is not None and is_ref(v) else to_py(v)
+
+    def vals(vs):
+        return env.store[vs[1]] if env is not None and is_ref(vs) else [to_py(v) for v in vs]
+
     def arg(a):
-        return to_py(a[1]) if a[0] == "val" else to_matcher(a, top=False)
+        return val(a[1]) if a[0] == "val" else to_matcher(a, top=False, env=env)
 
     c = e[0]
+    if c == "obj":
+        return env.objs[e[1]]
     if c == "val":
-        return M.is_(to_py(e[1])) if top else to_py(e[1])
+        return M.is_(val(e[1])) if top else val(e[1])
     if c == "is_":
         return M.is_(arg(e[1]))
     if c == "not_":
         return M.not_(arg(e[1]))
     if c in VALUE_LEAVES:
-        return getattr(M, c)(to_py(e[1]))
+        return getattr(M, c)(val(e[1]))
     if c == "is_between":
         return M.is_between(num_to_py(e[1]), num_to_py(e[2]))
     if c in NULLARY:
@@ -306,7 +328,7 @@ def to_matcher(e, top=True):
     if c in STRING_LEAVES:
         return getattr(M, c)(e[1])
     if c in LIST_LEAVES:
-        return getattr(M, c)([to_py(v) for v in e[1]])
+        return getattr(M, c)(vals(e[1]))
     if c == "has_entry":
         return M.has_entry(list(e[1]), arg(e[2]))
     if c == "has_key":
@@ -320,11 +342,77 @@ def to_matcher(e, top=True):
     if c == "any_of":
         return M.any_of(*[arg(a) for a in e[1]])
     if c == "hide":
-        return to_matcher(e[1], top=False).hide_result_details() if e[1][0] != "val" else M.is_(to_py(e[1][1])).hide_result_details()
+        return (to_matcher(e[1], top=False, env=env) if e[1][0] != "val" else M.is_(val(e[1][1]))).hide_result_details()
     if c == "override":
-        inner = to_matcher(e[2], top=False) if e[2][0] != "val" else M.is_(to_py(e[2][1]))
+        inner = to_matcher(e[2], top=False, env=env) if e[2][0] != "val" else M.is_(val(e[2][1]))
         return inner.override_description(e[1])
     raise ValueError(e)
+
+
+def from_py(x):
+    """Python value of the domain -> JSON syntax (inverse of to_py)"""
+    if x is None or x is True or x is False:
+        return x
+    if isinstance(x, int):
+        return ["i", x]
+    if isinstance(x, float):
+        if (x * 2) != int(x * 2):
+            raise ValueError(x)
+        return ["f", int(x * 2)]
+    if isinstance(x, str):
+        return ["s", x]
+    if isinstance(x, list):
+        return ["l", [from_py(e) for e in x]]
+    if isinstance(x, dict):
+        return ["d", [[k if isinstance(k, str) else from_py(k), from_py(v)] for k, v in x.items()]]
+    raise ValueError(x)
+
+
+def map_expr(e, f_val, f_obj):
+    """rebuild an expression: `f_val` is applied to every value / value-list argument, `f_obj` to every ["obj", i]"""
+    c = e[0]
+    if c == "obj":
+        return f_obj(e)
+    if c == "val" or c in VALUE_LEAVES or c in LIST_LEAVES:
+        return [c, f_val(e[1])]
+    if c in UNARY or c == "hide":
+        return [c, map_expr(e[1], f_val, f_obj)]
+    if c in ("has_entry", "is_type", "override"):
+        return [c, e[1], map_expr(e[2], f_val, f_obj)]
+    if c in ("all_of", "any_of"):
+        return [c, [map_expr(a, f_val, f_obj) for a in e[1]]]
+    return list(e)
+
+
+def inline_objs(e, templates):
+    """the constructor call with every ["obj", i] replaced by the call that built object i (itself already inlined)"""
+    return map_expr(e, lambda v: v, lambda o: ["is_", templates[o[1]]])      # what is passed IS a Matcher: is_() returns it as it is
+
+
+def instantiate(e, store_vals):
+    """the pure expression an (inlined) template denotes for the given contents (JSON syntax) of the store"""
+    def walk(e):
+        c = e[0]
+        if c in LIST_LEAVES:
+            return [c, list(store_vals[e[1][1]][1])] if is_ref(e[1]) else list(e)      # ["l", items] -> items
+        if c == "val" or c in VALUE_LEAVES:
+            return [c, store_vals[e[1][1]] if is_ref(e[1]) else e[1]]
+        if c in UNARY or c == "hide":
+            return [c, walk(e[1])]
+        if c in ("has_entry", "is_type", "override"):
+            return [c, e[1], walk(e[2])]
+        if c in ("all_of", "any_of"):
+            return [c, [walk(a) for a in e[1]]]
+        return list(e)
+
+    return walk(e)
+
+
+def refs_of(e):
+    """the store locations an (inlined) template refers to"""
+    out = set()
+    map_expr(e, lambda v: (out.add(v[1]) if is_ref(v) else None, v)[1], lambda o: o)
+    return out
 
 
 def _type_fn(M, t):
